@@ -102,6 +102,8 @@ def main():
     ap.add_argument('--tier', default='both')
     ap.add_argument('--checks', default='')
     ap.add_argument('--recheck', action='store_true', help='re-run the kept seeds under /verif/seeded')
+    ap.add_argument('--out', default=OUT, help='directory with <Cnn>/patch<k>.diff')
+    ap.add_argument('--tag', default='', help='prefix for the kept id, e.g. w2')
     args = ap.parse_args()
     tiers = ['quick', 'thorough'] if args.tier == 'both' else [args.tier]
     checks = [c for c in args.checks.split(',') if c]
@@ -117,10 +119,10 @@ def main():
     else:
         for it in args.items:
             pid, _, k = it.partition(':')
-            ks = [k] if k else sorted(f[5:-5] for f in os.listdir(os.path.join(OUT, pid)) if f.startswith('patch') and f.endswith('.diff'))
+            ks = [k] if k else sorted(f[5:-5] for f in os.listdir(os.path.join(args.out, pid)) if f.startswith('patch') and f.endswith('.diff'))
             for k in ks:
-                jobs.append((pid, k, os.path.join(OUT, pid, 'patch%s.diff' % k), os.path.join(OUT, pid, 'demo%s.py' % k),
-                             os.path.join(OUT, pid, 'meta%s.json' % k)))
+                jobs.append((pid, args.tag + k, os.path.join(args.out, pid, 'patch%s.diff' % k), os.path.join(args.out, pid, 'demo%s.py' % k),
+                             os.path.join(args.out, pid, 'meta%s.json' % k)))
     ev = os.path.join(HERE, 'evidence')
     bak = tempfile.mkdtemp(prefix='evbak-', dir='/dev/shm')
     for f in os.listdir(ev):
